@@ -485,8 +485,9 @@ def run(rep, tier, seed):
             break
         rep.violation(s, "correspondence-diff", {"hint": h, "implementation": expected[idx], "model": got})
     same_name_probe(rep, normalize_type)
+    n_cross = cross_module_probe(rep, normalize_type)
     rep.cov.update({
-        "evaluations": len(hints) + pres_checked + chg_checked,
+        "evaluations": len(hints) + pres_checked + chg_checked + n_cross,
         "distinct_nontrivial": len({repr(h) for h in hints if h[0] in ("HUnion", "HOpt", "HLit", "HGen", "HTupleFix", "HAnn")}),
         "rule": "hints from the model grammar (depth <= 3; None, Any, 7 classes, NewTypes, 8 generics incl. bound/constrained "
                 "user generics and abc aliases, tuples, Literal with int/bool/str/bytes/enum/None members, Optional, Union, "
@@ -527,6 +528,48 @@ def same_name_probe(rep, normalize_type):
                        "a": repr(a), "b": repr(b)})
 
 
+def cross_module_probe(rep, normalize_type):
+    """bare generic = generic with its implicit parameters, when the type variable comes from ANOTHER module and its bound /
+    constraints are forward references: they name classes of the module that declares the type variable"""
+    import sys
+    import types
+    a = types.ModuleType("verif_c15_mod_a")
+    sys.modules[a.__name__] = a
+    exec("from typing import TypeVar\n"                                                     # noqa: S102
+         "class Item: pass\nclass Other: pass\n"
+         "TB = TypeVar('TB', bound='Item')\nTC = TypeVar('TC', 'Item', 'Other')\n", a.__dict__)
+    b = types.ModuleType("verif_c15_mod_b")
+    sys.modules[b.__name__] = b
+    exec("from typing import Generic\nfrom verif_c15_mod_a import TB, TC\n"                 # noqa: S102
+         "class Item: pass\nclass Other: pass\n"
+         "class Box(Generic[TB]): pass\nclass Pair(Generic[TC]): pass\n", b.__dict__)
+    c = types.ModuleType("verif_c15_mod_c")
+    sys.modules[c.__name__] = c
+    exec("from typing import Generic\nfrom verif_c15_mod_a import TB, TC\n"                 # noqa: S102
+         "class Box(Generic[TB]): pass\nclass Pair(Generic[TC]): pass\n", c.__dict__)
+    n = 0
+    for mod, label in ((b, "the generic's module has unrelated classes of the same names"), (c, "the generic's module lacks the names")):
+        for bare, full, wrong in ((mod.Box, mod.Box[a.Item], getattr(mod, "Item", None) and mod.Box[mod.Item]),
+                                  (mod.Pair, mod.Pair[Union[a.Item, a.Other]],
+                                   getattr(mod, "Item", None) and mod.Pair[Union[mod.Item, mod.Other]])):
+            n += 1
+            try:
+                nb, nf = normalize_type(bare), normalize_type(full)
+            except Exception as e:  # noqa: BLE001
+                rep.violation(f"cross-module-bound:raises:{bare.__name__}", "property-violated",
+                              {"what": f"normalising bare {bare.__name__} whose type variable is declared in another module "
+                                       f"({label}) raises {type(e).__name__}: {str(e)[:120]}"})
+                continue
+            if nb != nf or hash(nb) != hash(nf):
+                rep.violation(f"cross-module-bound:differs:{bare.__name__}", "property-violated",
+                              {"what": f"bare {bare.__name__} does not normalise like {full} ({label})", "bare": repr(nb), "full": repr(nf)})
+            if wrong is not None and normalize_type(wrong) == nb:
+                rep.violation(f"cross-module-bound:collapses:{bare.__name__}", "property-violated",
+                              {"what": f"bare {bare.__name__} normalises like {wrong}: the forward reference was resolved in the "
+                                       "generic's module instead of the type variable's", "bare": repr(nb)})
+    return n
+
+
 def head(h):
     return h[0] if isinstance(h, (list, tuple)) else str(h)
 
@@ -560,6 +603,15 @@ def replay(rep, body):
                 return tuple(fix(y) for y in x)
             return [fix(y) for y in x]
         return x
+    if body.get("signature", "").startswith("cross-module-bound:"):
+        scratch = lib.ScratchReport(rep.pid, "quick", 0)
+        cross_module_probe(scratch, normalize_type)
+        if body["signature"] in scratch.found:
+            print("reproduced:", body.get("what"))
+            rep.violation(body["signature"], body["kind"], body)
+        else:
+            print("does not reproduce on the current tree")
+        return
     if "hint" not in body:
         print("replay names a broken obligation, not an input:", body.get("what"))
         rep.violation(body["signature"], body["kind"], body, no_input=True)
